@@ -391,7 +391,8 @@ func cachingHandler(router proxy.Router, logger *apexlog.Logger, conf *config.Co
 							r.Header.Set(clientRevalidateHeader, clientRevalidateValue)
 						}
 						alwaysInclude.Set(caching.HeaderRrrouterCacheStatus, "revalidated")
-						cachingFunc(w, r, nil, alwaysInclude, &rf, false)
+						// The origin has just confirmed the stored entry: serve it, do not ask again
+						cachingFunc(w, r, nil, alwaysInclude, &rf, true)
 						return
 					}
 				}
